@@ -196,6 +196,7 @@ class LoopMachine(Machine):
                     break
             else:
                 raise AnalysisBroken('loop %s: modified set did not stabilise' % lid)
+            written_cells = dict(mods)
             # cells written only on leaving paths (break/return) are not loop-carried: every
             # continuing path of the most general iteration leaves them as they were
             for (oid, key) in list(mods):
@@ -261,7 +262,7 @@ class LoopMachine(Machine):
                         if cell is None or cell[0] != n:
                             badc.add((oid, key))
                             break
-                        l = lin_of(s2.canon(cell[1])).add(expect, -1)
+                        l = lin_of(s2.canon(cell[1])).add(lin_of(s2.canon(term_of_lin(expect))), -1)
                         if not (l.is_const() and l.k == 0):
                             if getattr(self, 'debug_loops', False):
                                 print('   cell', short(s2.canon(cell[1])), 'expected', expect, [repr(f) for f in s2.facts])
@@ -330,6 +331,23 @@ class LoopMachine(Machine):
         for s2 in brk:
             pass
         loop_eff = ('loop', lid, tuple(sorted(iter_traces, key=repr)))
+        # flags a scan accumulates (1-byte cells of enclosing locals the body may write): their value on
+        # leaving the loop is kept as a tag, so rules need not depend on the break-vs-condition idiom
+        flag_cells = [(oid, key) for (oid, key), (n, ty, _) in written_cells.items()
+                      if n == 1 and oid.startswith('L:') and not key[0] and oid not in smashed]
+
+        def tag_flags(s2):
+            if not getattr(self, 'tag_loop_flags', False):
+                return
+            vals = []
+            for oid, key in sorted(flag_cells):
+                o2 = s2.objs.get(oid)
+                c2 = o2.cells.get(key) if o2 is not None else None
+                if c2 is not None:
+                    vals.append((oid.split('.', 1)[-1], c2[1]))
+            s2.tags['lv:' + lid] = tuple(vals)
+        for s2 in exitf + brk + [x for x, _ in ret]:
+            tag_flags(s2)
         outs = []
         if len(exitf) > 1:
             # keep the reason for leaving the loop (which conjunct of the condition failed) distinguishable
